@@ -77,7 +77,10 @@ class History:
             self.step()
             if r.random() < 0.3:
                 name = "tag%d" % i
-                git(["tag", name], self.root)
+                if r.random() < 0.5:
+                    git(["tag", name], self.root)
+                else:
+                    git(["tag", "-a", "-m", "annotated " + name, name], self.root)     # a tag object: must be peeled to its commit
                 self.refs[name] = self.commits[-1]
             if r.random() < 0.3 and len(self.commits) >= 2:
                 b = "br%d" % i
